@@ -29,7 +29,7 @@ def _loop_of(a, b):
 
 
 def _exits(a, blks):
-    errb = a.error_blocks()
+    errb = a.failing_blocks()
     return {(x, y) for x in blks for y in a.cfg.succ[x] if y not in blks and y not in errb and not a.blocks[y].get('cl')}
 
 
